@@ -310,6 +310,7 @@ type volSpec struct {
 	ioerr   bool
 	stampAt uint64 // 0: keep the stamp the writes produced; else overwrite before the heartbeat
 	compact bool
+	scan    bool // compact with the scanning Compact instead of the index-based Compact2
 }
 
 func (e *env) volumeCase(out *hx.Out, sp volSpec, kind string) {
@@ -364,7 +365,13 @@ func (e *env) volumeCase(out *hx.Out, sp volSpec, kind string) {
 	var c1, c2 uint64
 	if sp.compact {
 		c1 = nowS()
-		hx.Must(v.Compact2(0, 0))
+		if sp.scan {
+			hx.Must(v.Compact(0, 0))
+			out.Count("compact:scan(Compact)", 1)
+		} else {
+			hx.Must(v.Compact2(0, 0))
+			out.Count("compact:index(Compact2)", 1)
+		}
 		hx.Must(v.CommitCompact())
 		c2 = nowS()
 	}
@@ -417,7 +424,7 @@ func (e *env) volumeCase(out *hx.Out, sp volSpec, kind string) {
 	e.dropVolume(vid)
 
 	nobs := make([]string, len(recs))
-	canon := []string{"V:" + sp.vttl, fmt.Sprintf("lim%d io%v c%v", sp.limit, sp.ioerr, sp.compact)}
+	canon := []string{"V:" + sp.vttl, fmt.Sprintf("lim%d io%v c%v scan%v", sp.limit, sp.ioerr, sp.compact, sp.scan)}
 	for i, rc := range recs {
 		nobs[i] = fmt.Sprintf("{| b_req_ttl := %s; b_ts := %s; b_tw1 := %s; b_tw2 := %s; b_append := %s; b_has_ttl := %s; b_has_lm := %s; b_count := %s; b_unit := %s; b_lm := %s; b_r1 := %s; b_r2 := %s; b_readable := %s; b_kept := %s; b_r3 := %s; b_r4 := %s; b_readable_after := %s |}",
 			hx.Str(sp.needles[i].reqTtl), hx.N(sp.needles[i].ts), hx.N(rc.tw1), hx.N(rc.tw2), hx.N(rc.append),
@@ -511,7 +518,7 @@ func genNeedle(r *hx.Rng, vttl string, now uint64) needleSpec {
 
 func genVolume(r *hx.Rng) volSpec {
 	now := nowNs()
-	sp := volSpec{vttl: genTtl(r), compact: true}
+	sp := volSpec{vttl: genTtl(r), compact: true, scan: r.Chance(1, 3)}
 	k := r.Range(1, 5)
 	minA := now
 	for i := 0; i < k; i++ {
@@ -569,7 +576,9 @@ func (e *env) expireCase(out *hx.Out, r *hx.Rng, vttl string, kind string) {
 			st = int64(now) - off - int64(r.Intn(100000))
 		}
 		stamp := uint64(st)
-		if r.Chance(1, 12) {
+		if j == 0 {
+			stamp = now + 90 // a stamp ahead of the clock: (now-stamp)/60 is a negative int64 quotient
+		} else if r.Chance(1, 12) {
 			stamp = now + uint64(r.Range(1, 4000)) // stamp in the future
 		}
 		size := uint64(r.PickInt([]int{0, 8, 9, 4096, 1 << 20}))
@@ -670,32 +679,30 @@ func chunkFid(id int) string { return fmt.Sprintf("3,%02x637037d6", id+1) }
 // one attempt at a history; ok=false when a deadline fell inside the clock bracket of a
 // step (the caller retries with fresh times)
 type seqRun struct {
-	e       *env
-	f       *filer.Filer
-	dir     string
-	T       int64 // second in which the history starts
-	chunks  []seqChunk
-	byFid   map[string]int
-	steps   []string
-	canon   []string
-	t1s     []uint64
-	t2s     []uint64
-	crs     map[int64]bool
-	ttls    map[int32]bool
-	seen    int
-	counts  map[string]int
+	e      *env
+	f      *filer.Filer
+	dir    string
+	T      int64 // second in which the history starts
+	chunks []seqChunk
+	byFid  map[string]int
+	steps  []string
+	canon  []string
+	t1s    []uint64
+	t2s    []uint64
+	crs    map[int64]bool
+	ttls   map[int32]bool
+	seen   int
+	counts map[string]int
 }
 
 func (q *seqRun) path(p int) util.FullPath { return util.FullPath(fmt.Sprintf("%s/f%d", q.dir, p)) }
 
-func (q *seqRun) newChunk(s int32, append uint64) int {
+func (q *seqRun) newChunk(s int32, at uint64) int {
 	id := len(q.chunks)
-	q.chunks = append2(q.chunks, seqChunk{id: id, s: s, append: append, minutes: realMinutes(needle.SecondsToTTL(s))})
+	q.chunks = append(q.chunks, seqChunk{id: id, s: s, append: at, minutes: realMinutes(needle.SecondsToTTL(s))})
 	q.byFid[chunkFid(id)] = id
 	return id
 }
-
-func append2(l []seqChunk, c seqChunk) []seqChunk { return append(l, c) }
 
 func (q *seqRun) toEntry(p int, x seqEnt) *filer.Entry {
 	ent := &filer.Entry{FullPath: q.path(p), Attr: filer.Attr{Crtime: time.Unix(x.cr, 0), Mtime: time.Unix(x.mt, 0), Mode: 0644, TtlSec: x.ttl}}
@@ -749,7 +756,7 @@ func (q *seqRun) insert(p int, x seqEnt, canon string) {
 	t1 := nowNs()
 	hx.Must(q.f.Store.InsertEntry(context.Background(), ent))
 	t2 := nowNs()
-	q.record(t1, t2, fmt.Sprintf("(FInsert %s %s)", hx.N(uint64(p)), x.coq()), "(RDone 0)", canon)
+	q.record(t1, t2, fmt.Sprintf("(FInsert %s %s)", hx.N(uint64(p)), x.coq()), "(RDone 0%N)", canon)
 }
 
 func (q *seqRun) create(p int, x seqEnt, excl bool, canon string) {
@@ -764,7 +771,7 @@ func (q *seqRun) create(p int, x seqEnt, excl bool, canon string) {
 		}
 		code = 1
 	}
-	q.record(t1, t2, fmt.Sprintf("(FCreate %s %s %s)", hx.N(uint64(p)), x.coq(), hx.Bool(excl)), fmt.Sprintf("(RDone %d)", code), canon)
+	q.record(t1, t2, fmt.Sprintf("(FCreate %s %s %s)", hx.N(uint64(p)), x.coq(), hx.Bool(excl)), fmt.Sprintf("(RDone %d%%N)", code), canon)
 }
 
 // what the gRPC UpdateEntry handler does with the filer: FindEntry, then Filer.UpdateEntry(old, new)
@@ -783,7 +790,7 @@ func (q *seqRun) update(p int, x seqEnt, canon string) {
 		hx.Must(q.f.UpdateEntry(ctx, old, ent))
 	}
 	t2 := nowNs()
-	q.record(t1, t2, fmt.Sprintf("(FUpdate %s %s)", hx.N(uint64(p)), x.coq()), fmt.Sprintf("(RDone %d)", code), canon)
+	q.record(t1, t2, fmt.Sprintf("(FUpdate %s %s)", hx.N(uint64(p)), x.coq()), fmt.Sprintf("(RDone %d%%N)", code), canon)
 }
 
 func (q *seqRun) find(p int, canon string) (seqEnt, bool) {
@@ -830,7 +837,7 @@ func (q *seqRun) del(p int, canon string) {
 	t1 := nowNs()
 	hx.Must(q.f.Store.DeleteEntry(context.Background(), q.path(p)))
 	t2 := nowNs()
-	q.record(t1, t2, fmt.Sprintf("(FDelete %s)", hx.N(uint64(p))), "(RDone 0)", canon)
+	q.record(t1, t2, fmt.Sprintf("(FDelete %s)", hx.N(uint64(p))), "(RDone 0%N)", canon)
 }
 
 // the HTTP append path (?op=append): look the entry up, keep it (Crtime, TtlSec, old
@@ -1069,6 +1076,11 @@ func (e *env) witnesses(out *hx.Out) {
 		{reqTtl: "1d", ts: now/ns - 7200, append: now - 7200*ns, label: "1d blob, 2h old, in a 1h volume"},
 		{reqTtl: "", ts: now/ns - 1800, append: now - 1800*ns, label: "inherits 1h, 30min old"},
 	}}, "witness-compaction-volume-ttl")
+	e.volumeCase(out, volSpec{vttl: "1h", t0: now/ns - 7300, limit: 0, compact: true, scan: true, needles: []needleSpec{
+		{reqTtl: "1d", ts: now/ns - 7200, append: now - 7200*ns, label: "1d blob, 2h old, in a 1h volume"},
+		{reqTtl: "", ts: now/ns - 1800, append: now - 1800*ns, label: "inherits 1h, 30min old"},
+		{reqTtl: "", ts: now/ns - 3700, append: now - 3700*ns, label: "inherits 1h, expired"},
+	}}, "witness-compaction-volume-ttl-scan")
 	e.volumeCase(out, volSpec{vttl: "", t0: now/ns - 100, limit: 0, compact: true, needles: []needleSpec{
 		{reqTtl: "1d", ts: now/ns - 60, append: now - 60*ns, label: "1d blob, 1min old, in a volume without TTL"},
 		{reqTtl: "", ts: now/ns - 60, append: now - 60*ns, label: "no ttl"},
@@ -1088,11 +1100,16 @@ func (e *env) witnesses(out *hx.Out) {
 	e.volumeCase(out, volSpec{vttl: "1h", t0: now/ns - 3600 - 420, limit: 1 << 30, compact: false, needles: []needleSpec{
 		{reqTtl: "", ts: now/ns - 86400, append: now - 60*ns, label: "1h blob appended 1min ago with ts= one day ago into a volume loaded 67min ago"},
 	}}, "witness-expiry-stale-stamp")
+	// filer histories: modification does not extend an entry's life; Mtime <> Crtime;
+	// finding 0 seen from the filer
+	e.filerSeqCase(out, nil, 0, "witness-filer-modify-then-expire")
+	e.filerSeqCase(out, nil, 1, "witness-filer-mtime-later-than-crtime")
+	e.filerSeqCase(out, nil, 2, "witness-filer-seconds-round-down")
 }
 
 func main() {
 	out := hx.Flags("C09", 240)
-	out.Rule = "kinds: seconds = batches of int32 TtlSec values (ladder boundaries k*unit+d for all six units, dense 0..400, random incl. negatives; thorough: every s<=200000 first) through real SecondsToTTL+ReadTTL+Minutes; ttlstr = TTL strings (all units, counts 0..255 and beyond, malformed) through ReadTTL/Minutes/String/ToUint32/ToBytes/Load*; volume = a volume created with a TTL, 1..5 uploads (ttl= inherit/same/other, ts= absent/at-append/old/future/at-compaction-deadline/>2^40) parsed by CreateNeedleFromRequest, written by WriteVolumeNeedle, aged by rewriting AppendAtNs, read, compacted (Compact2+CommitCompact), read again, then CollectHeartbeat with a chosen stamp/size limit/IO error; expire = 24 (stamp,size,limit,delay) points around the expired/expiredLongEnough boundaries on a real volume; filer = 16 entries (TtlSec incl. <=0, Crtime around now-TtlSec) through Filer.FindEntry over leveldb; non-trivial = at least one observation on a non-error path; distinct = canonical generator parameters"
+	out.Rule = "kinds: seconds = batches of int32 TtlSec values (ladder boundaries k*unit+d for all six units, dense 0..400, random incl. negatives; thorough: every s<=200000 first) through real SecondsToTTL+ReadTTL+Minutes; ttlstr = TTL strings (all units, counts 0..255 and beyond, malformed) through ReadTTL/Minutes/String/ToUint32/ToBytes/Load*; volume = a volume created with a TTL, 1..5 uploads (ttl= inherit/same/other, ts= absent/at-append/old/future/at-compaction-deadline/>2^40) parsed by CreateNeedleFromRequest, written by WriteVolumeNeedle, aged by rewriting AppendAtNs, read, compacted (index-based Compact2 or, 1 in 3, scanning Compact; then CommitCompact), read again, then CollectHeartbeat with a chosen stamp/size limit/IO error; expire = 24 (stamp,size,limit,delay) points around the expired/expiredLongEnough boundaries on a real volume; filer = 16 entries (TtlSec incl. <=0, Crtime around now-TtlSec) through Filer.FindEntry over leveldb; filer-history = 5..10 operations (+4 closing lookups/listing) on 3 names of one directory of a real Filer over leveldb, from the empty directory: Filer.CreateEntry (o_excl or not; over free, visible and expired names), raw Store.InsertEntry, append-style modify (FindEntry, then CreateEntry of the found entry with Mtime=now and one more chunk), gRPC-style update (FindEntry + Filer.UpdateEntry with a new Crtime the filer must ignore), FindEntry, ListDirectoryEntries, Store.DeleteEntry; entries carry controlled Crtime (T-TtlSec-off, off in +-4..3600 s, or now), Mtime (=Crtime or now), TtlSec in {60,120,3600,86400,7200,90,0,45,61} and chunk ids with declared append times; some histories wait 4 s across a deadline; after every operation the raw store content is observed; a history in which a deadline falls inside a clock bracket is re-run; non-trivial = at least one observation on a non-error path; distinct = canonical generator parameters"
 	root := hx.NewRng(out.Seed)
 	e := newEnv()
 	shard := int(out.Seed % 1000)
@@ -1137,6 +1154,8 @@ func main() {
 			}
 			secBatch++
 			secondsCase(out, vals, "seconds")
+		case k == 2 && (i/8)%2 == 1, k == 7 && (i/8)%2 == 1:
+			e.filerSeqCase(out, r, -1, "filer-history")
 		case k == 2:
 			var strs []string
 			for j := 0; j < 40; j++ {
